@@ -18,7 +18,7 @@ use std::collections::BTreeSet;
 // tokens
 // ------------------------------------------------------------------------------------------------
 
-pub trait TokK: Copy + PartialEq + Eq + core::fmt::Debug + 'static {
+pub trait TokK: Copy + PartialEq + Eq + core::fmt::Debug + chumsky::text::Char + 'static {
     fn from_char(c: char) -> Self;
     fn to_char(self) -> char;
 }
@@ -571,6 +571,8 @@ thread_local! {
     /// pointers to `BP<'a, I, C>` values that live on the stack of the builder for exactly as long as
     /// they are on this stack
     static REC: std::cell::RefCell<Vec<*const ()>> = const { std::cell::RefCell::new(Vec::new()) };
+    /// the shared parser values of the `Let` nodes currently being built (same discipline)
+    static LET: std::cell::RefCell<Vec<*const ()>> = const { std::cell::RefCell::new(Vec::new()) };
 }
 
 thread_local! {
@@ -936,6 +938,7 @@ fn build0<'a, I: InK<'a>, C: Cfg<'a, I>>(g: &G, pr: Probes) -> BP<'a, I, C> {
         }
         MapErr(a) => build::<I, C>(a, pr).map_err(|e: C::Err| e.tag()).fin(),
         Memo(a) => build::<I, C>(a, pr).memoized().fin(),
+        Padded(a) => build::<I, C>(a, pr).padded().fin(),
         WithState(a) => C::with_state(build::<I, C>(a, pr)),
         Snd(a) => build::<I, C>(a, pr).map(ast::snd_of).fin(),
         Fst(a) => build::<I, C>(a, pr).map(ast::fst_of).fin(),
@@ -968,6 +971,23 @@ fn build0<'a, I: InK<'a>, C: Cfg<'a, I>>(g: &G, pr: Probes) -> BP<'a, I, C> {
                 })
                 .fin()
             }
+        }
+        Let(def, body) => {
+            let h: BP<'a, I, C> = build::<I, C>(def, pr);
+            LET.with(|r| r.borrow_mut().push(&h as *const BP<'a, I, C> as *const ()));
+            let p = catch_build::<I, C>(body, pr);
+            LET.with(|r| r.borrow_mut().pop());
+            match p {
+                Ok(p) => p,
+                Err(e) => std::panic::resume_unwind(e),
+            }
+        }
+        Var => {
+            let ptr = LET.with(|r| r.borrow().last().copied()).unwrap_or_else(|| unsupported("var outside let"));
+            // SAFETY: pushed by the enclosing `Let` arm of this very instantiation of `build0` (same I, C), and
+            // still on that arm's stack frame
+            let h: &BP<'a, I, C> = unsafe { &*(ptr as *const BP<'a, I, C>) };
+            h.clone()
         }
         RecRef(k) => {
             let ptr = REC.with(|r| {
